@@ -6,6 +6,12 @@ claimed = {
  "C19": dict(level="exploration", engine="E3-enum", technique="bounded-exhaustive enumeration of (size, chunk, index) against a reference tiling; inline count expressions sliced from the source",
    text="Every (file size, chunk size) pair in a dense box plus the boundary lattice up to 10 TiB / 2^32-1 chunks is executed on the real chunkTotal, chunkSizeForIndex, CreateSidecar and on the inline count expressions sliced verbatim out of the current source; exhaustive inside the stated box, which is where ceiling-division and boundary mistakes live.",
    note="Trusted: the reference ceil-division in the harness; the slicing rule (assignments to totalChunks containing a division). Sizes between the dense box and the lattice points are not enumerated.", ref="§4 C19"),
+ "C18": dict(level="exploration", engine="E3-enum", technique="bounded-exhaustive enumeration of record values (full product of per-field boundary alphabets) and record sequences, decode(encode(x)) == x with exact framing",
+   text="Every control record type, the manifest header and the signaling envelope are encoded with the repository's writers and decoded with its readers over the full product of boundary alphabets per field, plus all ordered pairs and triples of representative records in one stream followed by a sentinel; exhaustive over that finite space, which is where length-prefix, field-order and boundary mistakes show.",
+   note="Trusted: reflect-based field comparison (nil and empty slices identified). Interior field values are not enumerated. Envelope strings are valid Unicode only.", ref="§4 C18"),
+ "C13": dict(level="exploration", engine="E3-enum", technique="bounded-exhaustive enumeration of small trees x path lists on a real file system against an independent walk and the real sender-side resolver",
+   text="All trees up to 3-4 entries (5 in the thorough tier) over a name alphabet containing the tool's own disambiguation prefixes and a kind alphabet with symlinks to files, directories and nothing, crossed with all path lists up to length 2-3 in several spellings, are materialised on tmpfs and scanned by the real Scan/ScanPaths; each manifest is compared with an independent lstat walk through the real buildPathResolver (exactly-once, distinct, sorted, counts, size = bytes read, rescan identical).",
+   note="Trusted: the oracle walk (os.Stat for a given path, no following of nested links); FIFOs/devices are outside the alphabet; cases the scanner refuses with an error are counted, not judged.", ref="§4 C13"),
 }
 todo = {}
 props=[json.loads(l) for l in open('/verif/properties.jsonl')]
